@@ -19,9 +19,28 @@ CLAIMED = {
             "(block splitting, size prefixes, null position) is a solver variable, into compatible target types (width, indirection, wrappers)", "DESIGN.md C03"),
     "C04": ("same exploration as C03; asserts that Skip (empty target struct) consumes exactly what Read consumes and that projected targets "
             "decode the same field values", "DESIGN.md C04"),
+    "C05": ("exhaustive (schema type x Go kind x position) matrix; for each pair the real Schema.Codec runs in the engine and, if it builds, the real Read runs on a valid "
+            "encoding of an arbitrary symbolic datum with guard bytes around the destination; the solver decides guard/sibling integrity for all inputs and the engine's "
+            "byte-granular heap with pointer-word shadow decides that every store stays inside its object and is type-correct", "DESIGN.md C05"),
+    "C06": ("every byte string up to the bound is offered to every reading entry point symbolically; implicit per-instruction assertions (bounds, nil, make, division) "
+            "decide no-panic, unwinding assertions decide termination / work proportional to input, an allocation assertion decides input-controlled allocation size", "DESIGN.md C06"),
+    "C07": ("real FileWriter output with a symbolic sync marker read back by the real ReadFile; corruption sites (sync, checksum, magic) are replaced by arbitrary "
+            "different bytes, the decompressor's verdict is a symbolic choice; the solver decides 'error, and nothing delivered' for all of them", "DESIGN.md C07"),
+    "C08": ("the crash point is one decision variable ranging over every byte offset of files of three layouts and three codecs; the oracle is computed from the layout", "DESIGN.md C08"),
+    "C09": ("inductive step from an arbitrary valid encoder state (covers histories of any length) plus all bounded histories, checked with a reference block parser", "DESIGN.md C09"),
+    "C10": ("inductive allocator step from arbitrary bank states plus retained-record harness over multi-block files with bank close/recycle; aliasing is decided on the engine's object heap", "DESIGN.md C10"),
+    "C13": ("caller-written schemas x covering Go types; reference decoder under the caller's schema and read-back, for all values within the schema type's range", "DESIGN.md C13"),
+    "C16": ("the fault index is a decision variable over every Write call of every bounded history; fault-free twin for the prefix clause", "DESIGN.md C16"),
     "C17": ("full-width symbolic execution of the primitive codecs: every int64/int32/int16 value, every float32/float64 bit pattern, "
             "every byte string <= 11 bytes as a candidate varint, against a reference transcribed from the specification", "DESIGN.md C17"),
 }
+
+CLAIMED.update({
+    "C18": ("all strings <= 40 bytes for no-panic; the full RFC 3339 grammar with every digit a solver variable for agreement with time.Date on the parsed fields; "
+            "replayed strings are cross-checked against time.Parse natively", "DESIGN.md C18"),
+    "C19": ("full-range symbolic integers / instants through the real time codecs against an abstract model of time.Time; multiplications and divisions by constants bit-blasted", "DESIGN.md C19"),
+    "C20": ("custom marker codecs registered through the real registry in every position of the catalogue, next to unregistered twins, both registration orders", "DESIGN.md C20"),
+})
 
 NA_DEFAULT = "check not built yet in this session (planned, see DESIGN.md)"
 NA = {}
